@@ -236,8 +236,13 @@ func (h *Handle) decide(op, class, task string) string {
 		if f.Class != "" && f.Class != class {
 			continue
 		}
-		if f.Who != "" && !strings.Contains(task, f.Who) {
-			continue
+		if f.Who != "" {
+			if task == "" {
+				task = h.taskName() // read calls do not carry their caller's name
+			}
+			if !strings.Contains(task, f.Who) {
+				continue
+			}
 		}
 		if f.Node != 0 && f.Node-1 != h.Node {
 			continue
